@@ -248,3 +248,86 @@ H("C17", "utils", "c17_exhausted_stays_exhausted", bounds="3 slots any content, 
 H("C17", "linkage", "c17_size_of_cluster", bounds="4 inputs, 2 recorded merges with symbolic sizes; any index pair < 6")
 H("C17", "linkage", "c17_indicies_leaf_order", bounds="all dendrograms over 3 inputs")
 H("C17", "utils", "c17_twin_must_fail", expect="fail")
+
+# ------------------------------------------------------------------------------------------------
+# C07 / C08 (record level, against the documented layout)
+# ------------------------------------------------------------------------------------------------
+REC_OUT = ("Ontology::as_bytes / from_bytes as a whole (section assembly over hash-map iteration, builder replay, information-content recomputation); "
+           "names > 3 bytes except the 255-byte cap probe; records with > 2 terms; categories/modifiers after load")
+PROPERTIES["C07"] = dict(
+    prefixes=["c07_"],
+    functions=["Gene::as_bytes / Gene::try_from(&[u8])", "OmimDisease::as_bytes (own impl) / Disease::as_bytes (trait default via OrphaDisease) / Disease::from_bytes",
+               "HpoTermInternal::as_bytes / parents_as_byte", "from_bytes_v2 via HpoTermInternal::try_from(Bytes)", "Ontology::metadata_as_bytes", "HpoGroup::as_bytes"],
+    bounds="record shapes: name length in {0,1,2,3} bytes, 0..2 terms (concrete per instance); every content byte / id / flag symbolic; "
+           "encoder and decoder are each compared with the documented byte layout (a round trip inside one harness is out of reach: DESIGN §1)",
+    stubs=["std::hash::RandomState::new -> fixed keys (term structs own empty HashSets)"],
+    outside=REC_OUT,
+    assumptions=["names handed to the encoder are valid UTF-8 (&str)", "term ids of one record are distinct (sets)"],
+)
+for d in ("n0_t0", "n1_t1", "n3_t0", "n2_t2"):
+    H("C07", "gene", "c07_gene_decode_" + d, tq=600, bounds="gene record shape " + d, inputs="all content bytes")
+for d in ("n0_t0", "n1_t1", "n3_t0"):
+    H("C07", "gene", "c07_gene_encode_" + d, tq=900, mem="medium", bounds="gene record shape " + d)
+H("C07", "gene", "c07_gene_encode_n2_t2", tier="thorough", mem="heavy", tt=3600, deep=True, bounds="gene record shape n2_t2 (18M SAT variables: > 26 GB)")
+H("C07", "gene", "c07_gene_decode_n3_t2", tier="thorough", tt=1800, bounds="gene record shape n3_t2")
+H("C07", "gene", "c07_gene_encode_n3_t2", tier="thorough", mem="heavy", tt=3600, deep=True, bounds="gene record shape n3_t2")
+for k in ("omim", "orpha"):
+    for d in ("n0_t0", "n1_t1"):
+        H("C07", "disease", "c07_%s_decode_%s" % (k, d), tq=600, bounds="%s disease record shape %s" % (k, d))
+        H("C07", "disease", "c07_%s_encode_%s" % (k, d), tq=600, bounds="%s disease record shape %s" % (k, d))
+    for d in ("n2_t2", "n3_t1"):
+        H("C07", "disease", "c07_%s_decode_%s" % (k, d), tier="thorough", tt=1800, bounds="%s disease record shape %s" % (k, d))
+    H("C07", "disease", "c07_%s_encode_n3_t2" % k, tier="thorough", tt=1800, bounds="%s disease record shape n3_t2" % k)
+H("C07", "binary_term", "c07_term_decode_v2_n0", tq=600, bounds="v2 term record, empty name")
+H("C07", "binary_term", "c07_term_decode_v2_n1", tq=600, bounds="v2 term record, 1-byte name")
+H("C07", "binary_term", "c07_term_decode_v3_n3", tq=900, mem="medium", bounds="v3 term record, 3-byte name")
+for n in (0, 1, 3):
+    H("C07", "internal", "c07_term_encode_n%d" % n, tq=900, mem="heavy", bounds="term record, %d-byte name; id, obsolete, replacement symbolic" % n)
+H("C07", "internal", "c07_term_parents_encode", tq=600, bounds="0..2 parents, ids symbolic")
+H("C07", "ontology", "c07_file_header_encode", bounds="all release dates (u16,u8,u8)")
+H("C07", "gene", "c07_gene_name_cap_utf8", tier="thorough", mem="heavy", tt=3600, deep=True, bounds="258-byte name, symbolic 1-3-byte character at the 255-byte cut")
+H("C07", "internal", "c07_term_name_cap_utf8", tier="thorough", mem="heavy", tt=3600, deep=True, bounds="258-byte name, symbolic 1-3-byte character at the 255-byte cut")
+H("C07", "gene", "c07_gene_twin_must_fail", expect="fail")
+H("C07", "disease", "c07_disease_twin_must_fail", expect="fail")
+
+PROPERTIES["C08"] = dict(
+    prefixes=["c08_", "c07_"],
+    functions=["parser::binary::ontology::version", "BinaryVersion::try_from(u8) / Ord", "Builder::hpo_version_from_bytes", "from_bytes_v1 / from_bytes_v2",
+               "Gene::try_from / Disease::from_bytes on truncated, extended and mis-announced records", "BinaryTermBuilder::next", "Bytes::u32_prefix/subset"],
+    bounds="header: every byte string of 0,4,5,8 bytes; version byte: all 256 values; records: shapes as in C07, EVERY prefix length 0..L-1 and the "
+           "extensions L+1..L+4, total-length field any u32, n_terms field any u32",
+    stubs=["std::hash::RandomState::new -> fixed keys"],
+    outside="the section walk of Ontology::from_bytes itself (offset arithmetic interleaved with the full builder pipeline), hence 'every truncation offset of a "
+            "whole file' and record-order independence across whole loads; add_*_from_bytes section loops (hash-set inserts)",
+    assumptions=["documented panics of BinaryTermBuilder count as rejection"],
+)
+for n in (0, 4, 5, 8):
+    H("C08", "binary_ontology", "c08_header_len%d" % n, bounds="every byte string of %d bytes" % n, inputs="[u8;%d]" % n)
+H("C08", "binary", "c08_binary_version_enum", bounds="all 256 x 256 version byte pairs")
+H("C08", "binary", "c08_bytes_u32_prefix", bounds="all 6-byte strings")
+H("C08", "builder", "c08_release_date_header", bounds="versions 1..3, payload length 0..6, all byte contents")
+H("C08", "binary_term", "c08_term_decode_v1_n0", tq=600, bounds="v1 term record, empty name")
+H("C08", "binary_term", "c08_term_decode_v1_n2", tq=600, bounds="v1 term record, 2-byte name")
+H("C08", "binary_term", "c07_term_decode_v2_n1", tq=600, bounds="v2 term record, 1-byte name")
+H("C08", "binary_term", "c08_term_truncated_v2_n2", tq=900, mem="medium", bounds="v2 term record announcing a 2-byte name, every prefix 0..15 bytes")
+H("C08", "binary_term", "c08_term_truncated_v1_n2", tq=900, mem="medium", bounds="v1 term record announcing 11 bytes, every prefix 0..10")
+H("C08", "binary", "c08_term_section_two_records", tq=900, mem="medium", bounds="two concatenated v2 term records (name lengths 1, 0)")
+H("C08", "gene", "c08_gene_wrong_length_n0_t0", tq=900, mem="medium", bounds="gene record n0_t0: all slice lengths 0..17 except 13; total field any u32")
+for c in ("cut1", "ext1"):
+    H("C08", "gene", "c08_gene_n1_t1_" + c, tq=600, bounds="gene record n1_t1, slice length %s, total field any u32" % c)
+for c in ("cut2", "cut4", "ext4"):
+    H("C08", "gene", "c08_gene_n1_t1_" + c, tier="thorough", tt=1800, bounds="gene record n1_t1, slice length %s, total field any u32" % c)
+for c in ("cut1", "cut4", "ext1"):
+    H("C08", "gene", "c08_gene_n2_t2_" + c, tier="thorough", tt=1800, mem="medium", bounds="gene record n2_t2, slice length %s, total field any u32" % c)
+H("C08", "gene", "c08_gene_nterms_field_symbolic", tq=900, mem="medium", bounds="gene record with room for 2 terms, n_terms field any u32")
+H("C08", "gene", "c07_gene_decode_n1_t1", tq=600, bounds="gene record shape n1_t1")
+for k in ("omim", "orpha"):
+    for c in ("cut1", "ext1"):
+        H("C08", "disease", "c08_%s_n1_t1_%s" % (k, c), tq=600, bounds="%s record n1_t1, slice length %s, total field any u32" % (k, c))
+    for c in ("cut4", "ext4"):
+        H("C08", "disease", "c08_%s_n1_t1_%s" % (k, c), tier="thorough", tt=1800, bounds="%s record n1_t1, slice length %s, total field any u32" % (k, c))
+H("C08", "disease", "c08_omim_wrong_length_n0_t0", tq=900, mem="medium", bounds="omim record n0_t0: all slice lengths 0..20 except 16; total field any u32")
+H("C08", "disease", "c08_orpha_wrong_length_n0_t0", tq=900, mem="medium", bounds="orpha record n0_t0: all slice lengths 0..20 except 16; total field any u32")
+H("C08", "disease", "c07_omim_decode_n1_t1", tq=600, bounds="omim record shape n1_t1")
+H("C08", "binary_ontology", "c08_header_twin_must_fail", expect="fail")
+H("C08", "binary_term", "c08_term_twin_must_fail", expect="fail")
